@@ -337,6 +337,7 @@ type OLVMArgs struct {
 	SignChain *big.Int // nil => derived from ChainID
 	MsgChain  *big.Int // nil => derived from ChainID
 	FromAddr  *keys.Address
+	Access    *ethtypes.AccessList // optional EIP-2930 access list carried in the payload (not covered by the legacy signature)
 }
 
 func OLVM(e *sim.EthUser, a OLVMArgs) Tx {
@@ -379,7 +380,7 @@ func OLVM(e *sim.EthUser, a OLVMArgs) Tx {
 		to = &t
 	}
 	msg := aolvm.Transaction{
-		Nonce: a.Nonce, From: from, To: to, Amount: Amt("OLT", value), Data: a.Data, ChainID: msgChain,
+		Nonce: a.Nonce, From: from, To: to, Amount: Amt("OLT", value), Data: a.Data, ChainID: msgChain, AccessList: a.Access,
 	}
 	data, err := msg.Marshal()
 	if err != nil {
